@@ -1033,6 +1033,18 @@ def probes() -> T.List[T.Tuple]:
                {'type': 'kwargs', 'function': 'project', 'id': '/', 'operation': 'add', 'kwargs': {'license': 'MIT'}}], 'json', False))
     P.append(('defopt-delete-then-set-on-collapsed', {'meson.build': bs}, [dopt('delete', warning_level=None), dopt('set', werror='true'),
                                                                        dopt('delete', werror=None)], 'cli', False))
+    # typed values given as strings, in every spelling the rewriter accepts
+    sp = base + "dep = dependency('zlib', required : false, static : true)\nexecutable('prog', 'm.c', install : false, pie : true, c_args : ['-DX'])\n"
+    for j, (form, spell) in enumerate([('cli', 'True'), ('cli', 'TRUE'), ('json', 'tRuE'), ('cli', 'False'), ('json', 'FALSE'), ('cli', 'true')]):
+        want_true = spell.lower() == 'true'
+        P.append((f'bool-spelling-{spell}-{form}', {'meson.build': sp},
+                  [kwset('install' if want_true else 'pie', spell),
+                   {'type': 'kwargs', 'function': 'dependency', 'id': 'zlib', 'operation': 'set',
+                    'kwargs': {'required' if want_true else 'static': spell}},
+                   {'type': 'kwargs', 'function': 'target', 'id': 'prog', 'operation': 'info'}], form, False))
+        del j
+    P.append(('defopt-bool-spelling', {'meson.build': "project('p', default_options : ['werror=false', 'debug=true'])\n"},
+              [dopt('set', werror='True'), dopt('set', debug='FALSE')], 'cli', False))
     # calibration on the shape of the repository's own fixtures
     fx = ("project('rewritetest')\nsrc1 = ['main.cpp', 'fileA.cpp']\nsrc2 = files(['fileB.cpp', 'fileC.cpp'])\n"
           "exe0 = executable('trivialprog0', src1 + src2)\nexe1 = executable('trivialprog1', src1)\n"
